@@ -503,6 +503,16 @@ func TestVerifConn(t *testing.T) {
 		}
 		vcSetPlan(nil)
 		trials++
+		if timedOut && tr.Violated() {
+			// the oracle already refuted the property; the trial merely failed to wind down
+			tr.mu.Lock()
+			v := tr.viol
+			tr.mu.Unlock()
+			vfEmit(map[string]interface{}{"kind": "violation", "engine": "connmon", "scenario": scen, "case": idx, "case_seed": ts,
+				"property": v.Prop, "oracle": v.Kind, "msg": v.Msg, "params": tr.Param, "note": "trial did not wind down after the violation (watchdog)"})
+			nextCase = idx + 1
+			break
+		}
 		if timedOut {
 			dump := vcGoroutineDump()
 			fmt.Fprintf(os.Stderr, "WATCHDOG trial %d of %s\n%s\n", idx, scen, dump)
